@@ -16,14 +16,15 @@ ALPHA = 1e-12
 NAMES = ['t7', 'b2', 'x9', 'a1', 'm5', 'k3']
 CFG = ('SPECIFICATION Spec\nCONSTANTS\n  MinCols = %d\n  MaxCols = %d\n  Kinds = {%s}\n  Patterns = {%s}\n  Forms = {%s}\n  RowCounts = {%s}\n'
        'INVARIANT SchemaOK\nINVARIANT Emit\nCHECK_DEADLOCK FALSE\n')
-KINDS = ('gaussian', 'gamma', 'beta', 'uniform', 'student', 'bimodal', 'constant')
+KINDS = ('gaussian', 'gamma', 'beta', 'uniform', 'student', 'bimodal', 'constant', 'timestamp')
 PATTERNS = ('independent', 'equi-positive', 'equi-negative', 'ar', 'near-singular')
 FORMS = ('default', 'class', 'name', 'instance', 'dict')
 
 
 def law(kind):
     from scipy import stats
-    return {'gaussian': stats.norm(10, 3), 'gamma': stats.gamma(2.0, 1.0, 2.0), 'beta': stats.beta(2.0, 4.0, -1.0, 6.0),
+    return {'gaussian': stats.norm(10, 3), 'timestamp': stats.norm(1.7e9, 1.0e3),       # large offset, tiny relative spread
+            'gamma': stats.gamma(2.0, 1.0, 2.0), 'beta': stats.beta(2.0, 4.0, -1.0, 6.0),
             'uniform': stats.uniform(-3, 8), 'student': stats.t(6, 5, 2)}.get(kind)
 
 
@@ -65,7 +66,7 @@ def true_cdf(kind, x):
 def config(form, layout, cols):
     import copulas.univariate as U
     fam = {'gaussian': U.GaussianUnivariate, 'gamma': U.GammaUnivariate, 'beta': U.BetaUnivariate, 'uniform': U.UniformUnivariate,
-           'student': U.StudentTUnivariate, 'bimodal': U.GaussianKDE, 'constant': U.GaussianUnivariate}
+           'student': U.StudentTUnivariate, 'bimodal': U.GaussianKDE, 'constant': U.GaussianUnivariate, 'timestamp': U.GaussianUnivariate}
     if form == 'default':
         return {}
     if form == 'class':
@@ -148,7 +149,7 @@ def run(ctx):
     quick = ctx.tier == 'quick'
     ntrain, nsample = (500, 4000) if quick else (1500, 20000)
     ctx.rule = ('TLC (GaussApi) enumerates / samples requests: 2..%d columns x column kinds (gaussian, gamma, beta, uniform, student-t, bimodal, '
-                'constant) x dependence pattern (independent, equicorrelated +/-, AR(0.8), near-singular 0.99) x configuration form (default, class, '
+                'constant, large-offset "timestamp") x dependence pattern (independent, equicorrelated +/-, AR(0.8), near-singular 0.99) x configuration form (default, class, '
                 'qualified name, instance, per-column dict with a default column) x rows to sample {1, 7, N=%d}; training tables (%d rows) are drawn '
                 'by the harness from exactly that Gaussian copula; schema clauses are exact (SchemaOK on the model, compared on the real sample); '
                 'TLC (Acceptance) judges: each sampled column vs its fitted marginal (DKW), sample Kendall tau of each pair vs (2/pi) asin(rho_fitted) '
@@ -160,12 +161,12 @@ def run(ctx):
         return CFG % (mincols, maxcols, q(kinds), q(patterns), q(forms), ', '.join(str(r) for r in rows))
     cases = {}
     # exhaustive small part: two columns, four kinds, all patterns and forms, large sample
-    r = ctx.tlc('GaussApi.exhaustive', 'GaussApi', cfg(2, 2, ('gaussian', 'gamma', 'constant', 'bimodal'), PATTERNS[:4], FORMS, (1, 1000)), workers=1, timeout=600)
+    r = ctx.tlc('GaussApi.exhaustive', 'GaussApi', cfg(2, 2, ('gaussian', 'gamma', 'constant', 'timestamp'), PATTERNS[:4], FORMS, (1, 1000)), workers=1, timeout=600)
     for c in r.tagged('CASE'):
         cases[json.dumps(c[0], sort_keys=True)] = c[0]
     # simulated part over the full product
     r = T.run('GaussApi', cfg(2, 3 if quick else 6, KINDS, PATTERNS, FORMS, (1, 7, 1000)), workers=1, simulate='num=%d' % (120 if quick else 1500),
-              depth=3, seed=ctx.seed + 21, timeout=600)
+              depth=12, seed=ctx.seed + 21, timeout=600)
     ctx.note_tlc('GaussApi.simulate', r)
     for c in r.tagged('CASE'):
         cases[json.dumps(c[0], sort_keys=True)] = c[0]
